@@ -295,6 +295,18 @@ static bool node_accepts_mac(World &w, int node, const uint8_t mac[6]) {
 static void enqueue(World &w, int fdnum, const Frame &f) {
     FdEnt *e = w.fd(fdnum);
     if (!e) return;
+    if (e->rcvbuf_bytes) {
+        // a socket buffer counts bytes, not datagrams: each queued datagram costs its data plus the kernel's bookkeeping (sk_buff and
+        // shared info, about 576 bytes); a new one is refused once what is queued has reached the limit
+        auto cost = [](size_t n) { return ((n + 63) & ~(size_t)63) + 576; };
+        size_t used = 0;
+        for (auto &q : e->rxq) used += cost(q.data.size());
+        if (used >= e->rcvbuf_bytes) {
+            w.count(used < 212992 ? "ev.dropped_by_reduced_receive_buffer" : "fault.qdrop");
+            w.log("rcvbuf-drop", fdnum, f.id);
+            return;
+        }
+    }
     if (e->rxq.size() >= w.rxq_cap) {
         w.count("fault.qdrop");
         w.log("qdrop", fdnum, f.id);
@@ -347,6 +359,8 @@ void World::inject_can(int bus, const CanRec &c) {
         if (e.can_filter_set && !(c.can_id & CAN_ERR_FLAG)) {  // receive filters: a frame passes if one of them matches
             bool pass = false;
             for (auto &fl : e.can_filters) {
+                // (a filter whose mask contains CAN_ERR_FLAG lives in the kernel's list for error message frames: data frames are never compared with it)
+                if (fl.can_mask & CAN_ERR_FLAG) continue;
                 bool m = ((c.can_id & fl.can_mask & ~CAN_INV_FILTER) == (fl.can_id & fl.can_mask & ~CAN_INV_FILTER));
                 if (fl.can_id & CAN_INV_FILTER) m = !m;
                 if (m) { pass = true; break; }
@@ -579,6 +593,9 @@ int __wrap_setsockopt(int fd, int level, int optname, const void *optval, sockle
         e->can_filter_set = true;
     } else if (level == SOL_CAN_RAW && optname == CAN_RAW_ERR_FILTER && optlen >= sizeof(can_err_mask_t)) {
         e->can_err_mask = *(const can_err_mask_t *)optval;
+    } else if (level == SOL_SOCKET && optname == SO_RCVBUF && optlen >= sizeof(int)) {
+        int v = *(const int *)optval;
+        e->rcvbuf_bytes = std::max<size_t>(2304, 2 * (size_t)std::max(0, std::min(v, 212992)));
     } else if (level == IPPROTO_IP && optname == IP_MTU_DISCOVER && optlen >= sizeof(int)) {
         int v = *(const int *)optval;
         e->pmtudisc_do = v == IP_PMTUDISC_DO || v == IP_PMTUDISC_PROBE;
